@@ -211,33 +211,90 @@ fn frac_cmp_half(frac: &[u8], sticky: bool, _upper: bool) -> Ordering {
     }
 }
 
-/// Verdict for an integer conversion of a decimal literal into [min, max].
-#[derive(Clone, Debug)]
-pub struct IntOracle {
-    /// admissible Ok values (inclusive range), empty when lo > hi
-    pub ok_lo: i128,
-    pub ok_hi: i128,
-    /// whether Err(-222) is admissible
-    pub err_ok: bool,
+/// Exact rounding of the literal itself: the nearest integer, both neighbours
+/// at an exact tie. `None` when |v| >= 10^30.
+pub fn exact_round_set(d: &Dec) -> Option<(i128, i128)> {
+    let ip = d.ip? as i128;
+    let (lo, hi) = match frac_cmp_half(&d.frac, d.sticky, true) {
+        Ordering::Less => (ip, ip),
+        Ordering::Equal => (ip, ip + 1),
+        Ordering::Greater => (ip + 1, ip + 1),
+    };
+    Some(if d.neg { (-hi, -lo) } else { (lo, hi) })
 }
 
-pub fn int_oracle(d: &Dec, inter: Inter, min: i128, max: i128) -> IntOracle {
-    match rounding_set(d, inter) {
-        None => IntOracle { ok_lo: 1, ok_hi: 0, err_ok: true },
-        Some((lo, hi)) => IntOracle {
-            ok_lo: lo.max(min),
-            ok_hi: hi.min(max),
-            err_ok: lo < min || hi > max,
-        },
+/// Exact rounding of a float value (the correctly rounded intermediate the
+/// property grants): nearest integer, both neighbours at an exact tie.
+/// Magnitudes beyond 2^100 (and infinities) are reported as +-2^100.
+pub fn float_round_set(x: f64) -> (i128, i128) {
+    const BIG: i128 = 1 << 100;
+    if x.is_nan() {
+        return (0, 0);
     }
+    if x.abs() >= 1.2e30 {
+        return if x > 0.0 { (BIG, BIG) } else { (-BIG, -BIG) };
+    }
+    let t = x.trunc();
+    let r = (x - t).abs(); // exact
+    let ti = t as i128;
+    let away = if x < 0.0 { ti - 1 } else { ti + 1 };
+    if r > 0.5 {
+        (away, away)
+    } else if r == 0.5 {
+        (ti.min(away), ti.max(away))
+    } else {
+        (ti, ti)
+    }
+}
+
+/// Verdict for an integer conversion of a decimal literal into [min, max]:
+/// admissible results are the exact rounding of the literal and the exact
+/// rounding of its correctly rounded intermediate float(s) -- "exact up to the
+/// resolution of a double (of a single for 8/16-bit targets), either neighbour
+/// at an exact tie".
+#[derive(Clone, Debug)]
+pub struct IntOracle {
+    /// admissible integers as inclusive ranges (before clipping to the type)
+    pub sets: Vec<(i128, i128)>,
+    pub min: i128,
+    pub max: i128,
+}
+
+pub fn int_oracle(d: &Dec, lit: &str, inter: Inter, min: i128, max: i128) -> IntOracle {
+    const BIG: i128 = 1 << 100;
+    let mut sets = Vec::with_capacity(3);
+    match exact_round_set(d) {
+        Some(s) => sets.push(s),
+        None => sets.push(if d.neg { (-BIG, -BIG) } else { (BIG, BIG) }),
+    }
+    if let Ok(x) = lit.parse::<f64>() {
+        sets.push(float_round_set(x));
+    }
+    if inter == Inter::F32 {
+        if let Ok(x) = lit.parse::<f32>() {
+            sets.push(float_round_set(x as f64));
+        }
+    }
+    IntOracle { sets, min, max }
 }
 
 impl IntOracle {
     pub fn admits_ok(&self, n: i128) -> bool {
-        self.ok_lo <= n && n <= self.ok_hi
+        self.min <= n && n <= self.max && self.sets.iter().any(|(lo, hi)| *lo <= n && n <= *hi)
+    }
+    /// is Err(-222) admissible: some admissible integer lies outside the type
+    pub fn err_ok(&self) -> bool {
+        self.sets.iter().any(|(lo, hi)| *lo < self.min || *hi > self.max)
     }
     pub fn must_be_ok(&self) -> bool {
-        !self.err_ok
+        !self.err_ok()
+    }
+    /// no admissible integer lies inside the type
+    pub fn must_be_err(&self) -> bool {
+        !self.sets.iter().any(|(lo, hi)| *hi >= self.min && *lo <= self.max)
+    }
+    pub fn describe(&self) -> String {
+        format!("{:?}", self.sets)
     }
 }
 
